@@ -1,5 +1,7 @@
 import Tw.Model.Demo
 import Tw.Proofs.Demo
+import Tw.Model.DemoHl
+import Tw.Proofs.DemoHl
 import Tw.Gen.Demo
 
 /-!
@@ -20,6 +22,7 @@ The Huffman round trip of the built-in table is the explicit hypothesis `Huffman
 namespace Tw.Props.C15
 open Tw.Demo
 open Tw.Packer (inI32)
+open Tw.DemoHl Tw.Snap
 
 /-! ## Ties to the source -/
 
@@ -189,6 +192,144 @@ stays usable. -/
 theorem refusal_leaves_writer_unchanged (w w' : Writer) (c : Chunk) (s : String)
     (h : w.writeChunk c = (w', .panic s)) : w' = w :=
   writeChunk_refusal_unchanged w w' c s h
+
+/-! ## (5) the high-level writer and reader (typed level)
+
+The model (`Tw/Model/DemoHl.lean`) is the writer **as repaired** (D12, D21, D28, see `notes/demo.md`);
+objects are `(type id, id, fields)`, messages their encoded bytes (the typed codecs are C14's
+subject).  `DemoWriter.Inv` is the invariant of the reachable writer states. -/
+
+/-- Ties for the high-level writer: key frame iff none yet or `tick - last_keyframe > 250`, refusal
+iff `tick <= last_tick`, initial `last_tick = -1`, `write_msg` clears its buffer on entry,
+`write_snap` clears, packs, and only then writes the tick marker and the data chunk, every builder
+comes from a clone of the last written snap, and the DDNet object sizes. -/
+theorem tie_highlevel :
+    Tw.Gen.Demo.keyframe_test = (">", 250) ∧ Tw.Gen.Demo.low_tick_test = "<="
+    ∧ Tw.Gen.Demo.initial_last_tick = -1 ∧ Tw.Gen.Demo.write_msg_clears_on_entry = true
+    ∧ Tw.Gen.Demo.write_snap_order = ["clear", "pack", "tick", "data"]
+    ∧ Tw.Gen.Demo.write_snap_builder_sources = ["self.snap.clone().recycle()",
+        "self.snap.clone().recycle()", "self.snap.clone().recycle()"]
+    ∧ Tw.Gen.Demo.ddnet_obj_sizes = [(1, 10), (2, 6), (3, 5), (4, 4), (5, 3), (6, 8), (7, 4), (8, 15),
+        (9, 22), (10, 5), (11, 17), (12, 3), (13, 2), (14, 2), (15, 2), (16, 2), (17, 3), (18, 3), (19, 3),
+        (20, 3)] := by decide
+
+/-- A tick number that does not strictly increase is refused with `TooLowTickNumber` — no panic —
+and the writer is unchanged … -/
+theorem writeSnap_refuses_low_tick (objSize : Nat → Option Nat) (w : DemoWriter) (tick : Int)
+    (items : List Item) (h : tick ≤ w.lastTick) :
+    w.writeSnap objSize tick items = (w, .err .tooLowTickNumber) :=
+  writeSnap_low_tick objSize w tick items h
+
+/-- … and so is it after every other refusal (`SnapBuilder(..)`, `TooLargeSnap`, `TooLongNetMsg`):
+a refused call leaves the writer — file, tick state, last snapshot, builder — exactly as it was, so
+later calls behave as if it had not happened. -/
+theorem refused_call_leaves_writer_unchanged (objSize : Nat → Option Nat) (w w' : DemoWriter) (hinv : w.Inv)
+    (e : WriteError) :
+    (∀ tick items, w.writeSnap objSize tick items = (w', .err e) → w' = w)
+    ∧ (∀ msg, w.writeMsg msg = (w', .err e) → w' = w) :=
+  ⟨fun tick items h => writeSnap_err_unchanged objSize w w' hinv tick items e h,
+   fun msg h => writeMsg_err_unchanged w w' msg e h⟩
+
+/-- The invariant holds initially and after every accepted call with valid objects. -/
+theorem writer_invariant (objSize : Nat → Option Nat) :
+    (∀ (a : HeaderArgs) (w : DemoWriter), DemoWriter.new a = some w → w.Inv)
+    ∧ (∀ (w w' : DemoWriter) (tick : Int) (items : List Item), w.Inv → (∀ it ∈ items, it.valid) →
+        w.writeSnap objSize tick items = (w', .ok) → w'.Inv)
+    ∧ (∀ (w w' : DemoWriter) (msg : List UInt8), w.Inv → w.writeMsg msg = (w', .ok) → w'.Inv) :=
+  ⟨new_inv, fun w w' tick items hi hv h => writeSnap_preserves_inv objSize w w' hi tick items hv h,
+   fun w w' msg hi h => writeMsg_preserves_inv w w' msg hi h⟩
+
+/-- An accepted `write_snap` advances the tick state: the tick is recorded, and it is recorded as
+the last key frame exactly when none had been written or more than 250 ticks have passed. -/
+theorem accepted_snap_ticks (objSize : Nat → Option Nat) (w w' : DemoWriter) (tick : Int) (items : List Item)
+    (h : w.writeSnap objSize tick items = (w', .ok)) :
+    w.lastTick < tick ∧ w'.lastTick = tick
+    ∧ w'.lastKeyframe = (if w.isKeyframe tick then some tick else w.lastKeyframe)
+    ∧ (w.isKeyframe tick = true ↔ (w.lastKeyframe = none ∨ ∃ k, w.lastKeyframe = some k ∧ tick - k > 250)) := by
+  obtain ⟨hlt, b, b', bs, inner1, _, _, _, _, _, hw'⟩ := writeSnap_ok_inv objSize w w' tick items h
+  refine ⟨hlt, by rw [hw'], by rw [hw'], ?_⟩
+  unfold DemoWriter.isKeyframe
+  cases hk : w.lastKeyframe with
+  | none => simp
+  | some k => simp [keyframeInterval, Tw.Gen.Demo.keyframe_test]
+
+/-- **Key frame.** The bytes an accepted key-frame `write_snap` appends are read back by the
+high-level reader (whatever snapshot it holds) as `Tick(tick)` followed by a snapshot chunk that
+reports exactly the objects of the snapshot the writer built, which becomes the reader's snapshot;
+no warning. -/
+theorem keyframe_roundtrip (hH : HuffmanRoundTrip) (objSize : Nat → Option Nat) (w w' : DemoWriter)
+    (hinv : w.Inv) (tick : Int) (ht : inI32 tick) (items : List Item) (hv : ∀ it ∈ items, it.valid)
+    (hk : w.isKeyframe tick = true) (h : w.writeSnap objSize tick items = (w', .ok)) :
+    ∃ enc, w'.inner.file = w.inner.file ++ enc ∧
+      ∀ (v : Version) (rest : List UInt8) (s0 : Snap), v.num ≥ 5 →
+        ∃ r1, DemoReader.nextChunk objSize
+            { raw := { data := enc ++ rest, version := v, currentTick := w.inner.prevTick }, snap := s0 } =
+              (r1, .chunk (.tick tick), []) ∧
+          DemoReader.nextChunk objSize r1 =
+            match snapItems w'.snap with
+            | some its => ({ raw := { data := rest, version := v, currentTick := w'.inner.prevTick },
+                             snap := w'.snap }, .chunk (.snapshot its), [])
+            | none => (r1, .error .panic, []) :=
+  keyframe_step hH objSize w w' hinv tick ht items hv hk h
+
+/-- **Delta.** The bytes an accepted delta `write_snap` appends are read back by a reader that holds
+the writer's previous snapshot as `Tick(tick)` followed by a snapshot chunk with exactly the objects
+of the writer's new snapshot.  Partial: for snapshot pairs whose item sizes agree with each other and
+with the object-size table (always the case for typed objects; the excluded pairs make
+`Delta::create` panic — finding D15 of the snapshot crate). -/
+theorem delta_roundtrip_partial (hH : HuffmanRoundTrip) (objSize : Nat → Option Nat) (w w' : DemoWriter)
+    (hinv : w.Inv) (tick : Int) (ht : inI32 tick) (items : List Item) (hv : ∀ it ∈ items, it.valid)
+    (hk : w.isKeyframe tick = false) (h : w.writeSnap objSize tick items = (w', .ok))
+    (hag : SizesAgree w.snap.raw w'.snap.raw) (hok : SizesOk objSize w'.snap.raw.items) :
+    ∃ enc, w'.inner.file = w.inner.file ++ enc ∧
+      ∀ (v : Version) (rest : List UInt8), v.num ≥ 5 →
+        ∃ r1, DemoReader.nextChunk objSize
+            { raw := { data := enc ++ rest, version := v, currentTick := w.inner.prevTick }, snap := w.snap } =
+              (r1, .chunk (.tick tick), []) ∧
+          DemoReader.nextChunk objSize r1 =
+            match snapItems w'.snap with
+            | some its => ({ raw := { data := rest, version := v, currentTick := w'.inner.prevTick },
+                             snap := w'.snap }, .chunk (.snapshot its), [])
+            | none => (r1, .error .panic, []) :=
+  delta_step hH objSize w w' hinv tick ht items hv hk h hag hok
+
+/-- **Message.** An accepted `write_msg` is read back as the same bytes zero-padded to a multiple of
+four; snapshot and tick state of writer and reader are untouched. -/
+theorem message_roundtrip (hH : HuffmanRoundTrip) (objSize : Nat → Option Nat) (w w' : DemoWriter)
+    (msg : List UInt8) (h : w.writeMsg msg = (w', .ok)) :
+    w'.snap = w.snap ∧ w'.builder = w.builder ∧ w'.lastTick = w.lastTick ∧ w'.lastKeyframe = w.lastKeyframe ∧
+    ∃ enc, w'.inner.file = w.inner.file ++ enc ∧
+      ∀ (v : Version) (rest : List UInt8) (s0 : Snap), v.num ≥ 5 →
+        DemoReader.nextChunk objSize
+            { raw := { data := enc ++ rest, version := v, currentTick := w.inner.prevTick }, snap := s0 } =
+          ({ raw := { data := rest, version := v, currentTick := w'.inner.prevTick }, snap := s0 },
+            .chunk (.message (pad4 msg)), []) :=
+  msg_step hH objSize w w' msg h
+
+/-- The full typed-level statement of C15: for every header and every history of valid calls none of
+which panics, the high-level reader reports the header fields and, in order, for each accepted
+`write_snap` its tick and exactly the object set handed in (as a set), for each accepted `write_msg`
+its bytes zero-padded; it reaches the end without error or warning.  Not proved as one theorem: the
+per-call theorems above reduce it to (i) "the objects of the built snapshot are the objects handed
+in" and the size agreement of typed objects (snapshot crate, C09/C10), (ii) the induction over the
+history, (iii) the absence of the payload-limit panics (open finding D29). -/
+def C15_full : Prop :=
+  HuffmanRoundTrip → ∀ (objSize : Nat → Option Nat) (a : HeaderArgs) (w0 w : DemoWriter) (ops : List Op)
+    (rs : List HResult), a.wf → DemoWriter.new a = some w0 → (∀ op ∈ ops, op.valid) →
+    w0.run objSize ops = (w, rs) → (∀ r ∈ rs, ∀ s, r ≠ .panic s) →
+    ∃ cs, readFileHl objSize w.inner.file = some (a.info, cs, [], none) ∧ chunksAgree cs (expectedChunks ops rs)
+
+/-- D29 in the model: a 60 000-byte message of `0x80` bytes passes `write_msg`'s own length check and
+panics in the low-level writer (`overlong message`: 15 000 integers of five bytes each). -/
+theorem hl_writer_panics_witness (w : DemoWriter) :
+    (w.writeMsg (List.replicate (4 * 15000) 128)).2 = .panic "overlong message" := by
+  have h1 : ¬ (List.replicate (4 * 15000) (128 : UInt8)).length > Tw.Gen.Demo.MAX_SNAPSHOT_SIZE := by
+    rw [List.length_replicate]; decide
+  have h2 : (Tw.Demo.packInts (msgInts (List.replicate (4 * 15000) 128))).length > Tw.Gen.Demo.MAX_SNAPSHOT_SIZE := by
+    rw [msgInts_replicate, packInts_replicate_length]
+    have : (Tw.Packer.writeInt (leWord 128 128 128 128)).length = 5 := by decide
+    rw [this]; decide
+  simp only [DemoWriter.writeMsg, Writer.writeMessage, h1, if_false, h2, if_true]
 
 /-! ## non-vacuity -/
 
